@@ -435,7 +435,7 @@ OBLIGATIONS = [
 # ---------------------------------------------------------------------------------------------
 
 
-def _explore(res, name, K, D, pre, action, post, extra_caps=None, max_paths=300, on_violation=None, labels=None, cte_depth=None):
+def _explore(res, name, K, D, pre, action, post, extra_caps=None, max_paths=300, on_violation=None, labels=None, cte_depth=None, allow_integrity=False):
     """Generic inductive-step driver: fresh symbolic state, assume pre, run action natively, check post."""
     counts = {"paths": 0, "raised": 0}
 
@@ -461,9 +461,11 @@ def _explore(res, name, K, D, pre, action, post, extra_caps=None, max_paths=300,
         if pr.outcome == "raise":
             counts["raised"] += 1
             exc = pr.value
+            import sqlite3
+
             from stepup.core.exceptions import UsageError
 
-            if isinstance(exc, UsageError):
+            if isinstance(exc, UsageError) or (allow_integrity and isinstance(exc, sqlite3.IntegrityError)):
                 return  # a rejected request: allowed outcome
             v, m, dt = pr.run.query()
             res.q(f"{name}: no internal error ({type(exc).__name__}: {str(exc)[:80]})", "sat" if v == "sat" else v, dt)
@@ -626,4 +628,318 @@ def o10_2_after(tier):
 OBLIGATIONS += [
     Ob("O10.2r", o10_2_ready, "_update_meta_ready recomputes _ready exactly", weight=3, timeout={"quick": 1500, "thorough": 5400}),
     Ob("O10.2a", o10_2_after, "_update_meta_after computes the least fixed point of the need equation (also C11/O11.1)", weight=5, timeout={"quick": 2400, "thorough": 7200}),
+]
+
+
+# ---------------------------------------------------------------------------------------------
+# O10.3  no lost wake-up: every mutation performed by the real methods keeps the flag invariants
+# ---------------------------------------------------------------------------------------------
+
+
+def flag_invariants(wf: Wf, parts=("ready", "hash", "safe", "after")):
+    """INV_flags: whatever is not flagged for recomputation agrees with its definition."""
+    out = []
+    safe, safe_nh = wf.def_safe(False), wf.def_safe(True)
+    F = ancestor_flagged(wf)
+    for j in range(wf.K):
+        s = wf.steps[j]
+        sp = bz(s.present)
+        if "ready" in parts:
+            out.append(z3.Implies(z3.And(sp, s.vals["_check_ready"].v == 0), (s.vals["_ready"].v == 1) == wf.def_ready(j)))
+        if "hash" in parts:
+            out.append(z3.Implies(sp, (s.vals["_has_hash"].v == 1) == wf.def_has_hash(j)))
+        if "safe" in parts:
+            coherent = z3.And((s.vals["_safe"].v == 1) == safe[j], (s.vals["_safe_ignoring_hold"].v == 1) == safe_nh[j])
+            out.append(z3.Implies(z3.And(sp, z3.Not(F[j])), coherent))
+    if "after" in parts:
+        out += after_invariant(wf)
+    return out
+
+
+class _SymEnum:
+    """stands for an enum member whose .value is symbolic"""
+
+    def __init__(self, term):
+        from vf.symsql.values import V
+
+        self.value = V("i", False, term)
+        self.name = "SYM"
+
+
+def _node(cls, w, wf, run, name, kind):
+    """A node object of class `cls` whose id is symbolic among the present nodes of that kind."""
+    from vf.symsql.values import V
+
+    i = z3.Int(name)
+    run.assume(z3.Or(*[z3.And(i == j + 1, wf.is_kind(j, kind)) for j in range(wf.K)]))
+    return cls(w, V("i", False, i), "lbl"), i
+
+
+def mutations():
+    """name -> function(wf, w, s, run, aux) performing ONE mutation through the real methods."""
+    from stepup.core.file import File
+    from stepup.core.step import Step
+    from stepup.core.trellis import Node
+
+    FileState, StepState, Need = enums()
+    M = {}
+
+    def file_set_state(wf, w, s, run, aux):
+        f, fi = _node(File, w, wf, run, "m.file", "file")
+        st = z3.Int("m.newstate")
+        run.assume(z3.And(st >= min(FileState).value, st <= max(FileState).value))
+        # File.set_state only ever moves a file within its role (static / output / volatile);
+        # a change of role goes through File.initialize_row, which re-creates the edges.
+        from stepup.core.enums import FILE_ROLE_BY_STATE
+
+        def role(x):
+            return z3.Sum([z3.If(x == fs.value, int(r.value), 0) for fs, r in FILE_ROLE_BY_STATE.items()])
+
+        for j in range(wf.K):
+            run.assume(z3.Implies(fi == j + 1, role(st) == role(wf.files[j].vals["state"].v)))
+        f.set_state(_SymEnum(st))
+
+    M["File.set_state"] = file_set_state
+
+    def step_set_state(wf, w, s, run, aux):
+        stp, _ = _node(Step, w, wf, run, "m.step", "step")
+        st = z3.Int("m.newstate")
+        run.assume(z3.Or(*[st == x.value for x in StepState]))
+        stp.set_state(_SymEnum(st), False)
+
+    M["Step.set_state"] = step_set_state
+
+    def add_source_fs(wf, w, s, run, aux):
+        stp, _ = _node(Step, w, wf, run, "m.step", "step")
+        f, _ = _node(File, w, wf, run, "m.file", "file")
+        stp.add_source(f)
+
+    M["Step.add_source(file)"] = add_source_fs
+
+    def add_source_sf(wf, w, s, run, aux):
+        stp, _ = _node(Step, w, wf, run, "m.step", "step")
+        f, _ = _node(File, w, wf, run, "m.file", "file")
+        f.add_source(stp)
+
+    M["File.add_source(step)"] = add_source_sf
+
+    def del_sources(wf, w, s, run, aux):
+        stp, _ = _node(Step, w, wf, run, "m.step", "step")
+        f, _ = _node(File, w, wf, run, "m.file", "file")
+        stp.del_sources([f])
+
+    M["Step.del_sources([file])"] = del_sources
+
+    def del_all_sources_file(wf, w, s, run, aux):
+        f, _ = _node(File, w, wf, run, "m.file", "file")
+        f.del_all_sources()
+
+    M["File.del_all_sources"] = del_all_sources_file
+
+    def dyn_ins(wf, w, s, run, aux):
+        from vf.symsql.values import V
+
+        d = z3.Int("m.dep")
+        run.assume(z3.Or(*[z3.And(d == k + 1, bz(wf.deps[k].present), z3.Not(wf.is_dyn(k))) for k in range(wf.D)]))
+        w.db.executemany("INSERT INTO dynamic_dep VALUES (?)", [(V("i", False, d),)])
+
+    M["INSERT dynamic_dep"] = dyn_ins
+
+    def dyn_del(wf, w, s, run, aux):
+        from vf.symsql.values import V
+
+        d = z3.Int("m.dep")
+        run.assume(z3.And(d >= 1, d <= wf.D))
+        w.db.executemany("DELETE FROM dynamic_dep WHERE i = ?", [(V("i", False, d),)])
+
+    M["DELETE dynamic_dep"] = dyn_del
+
+    def set_hash(wf, w, s, run, aux):
+        stp, _ = _node(Step, w, wf, run, "m.step", "step")
+
+        class H:
+            def to_json(self):
+                from vf.symsql import live
+
+                return live.hash_json_pool()[0]
+
+        stp.set_hash(H())
+
+    M["Step.set_hash"] = set_hash
+
+    def delete_hash(wf, w, s, run, aux):
+        stp, _ = _node(Step, w, wf, run, "m.step", "step")
+        stp.delete_hash()
+
+    M["Step.delete_hash"] = delete_hash
+
+    def hold(wf, w, s, run, aux):
+        stp, i = _node(Step, w, wf, run, "m.step", "step")
+        run.assume(z3.Or(*[z3.And(i == j + 1, wf.steps[j].vals["state"].v == StepState.RUNNING.value) for j in range(wf.K)]))
+        stp.hold()
+
+    M["Step.hold"] = hold
+
+    def release(wf, w, s, run, aux):
+        stp, _ = _node(Step, w, wf, run, "m.step", "step")
+        stp.release()
+
+    M["Step.release"] = release
+
+    def step_detach(wf, w, s, run, aux):
+        stp, i = _node(Step, w, wf, run, "m.step", "step")
+        stp.detach()
+
+    M["Step.detach"] = step_detach
+
+    def file_detach(wf, w, s, run, aux):
+        # a file that no step produces (static declarations are detached this way)
+        f, fi = _node(File, w, wf, run, "m.file", "file")
+        for j in range(wf.K):
+            run.assume(z3.Implies(fi == j + 1, z3.Not(z3.Or(*[z3.And(wf.dep_edge(a, j), bz(wf.steps[a].present)) for a in range(wf.K)]))))
+        f.detach()
+
+    M["File.detach (static)"] = file_detach
+
+    def drop_dynamic_sink(wf, w, s, run, aux):
+        # Step.reset_for_rerun: an amended output loses its producer edge and is detached
+        stp, si = _node(Step, w, wf, run, "m.step", "step")
+        f, fi = _node(File, w, wf, run, "m.file", "file")
+        # the step is the producer of the file (the loop in reset_for_rerun walks its own sink edges)
+        run.assume(z3.Or(*[z3.And(si == a + 1, fi == b + 1, wf.dep_edge(a, b)) for a in range(wf.K) for b in range(wf.K)]))
+        f.del_sources([stp])
+        f.detach()
+
+    M["File.del_sources([step]) + detach"] = drop_dynamic_sink
+
+    def step_reattach(wf, w, s, run, aux):
+        stp, i = _node(Step, w, wf, run, "m.step", "step")
+        c, ci = _node(Step, w, wf, run, "m.creator", "step")
+        run.assume(i != ci)
+        # as in Trellis.try_recycle: a detached node is taken over by an attached creator
+        for j in range(wf.K):
+            run.assume(z3.Implies(i == j + 1, wf.nodes[j].vals["detached"].v == 1))
+            run.assume(z3.Implies(ci == j + 1, wf.nodes[j].vals["detached"].v == 0))
+        stp.reattach(c)
+
+    M["Step.reattach(step)"] = step_reattach
+
+    def set_duration(wf, w, s, run, aux):
+        stp, _ = _node(Step, w, wf, run, "m.step", "step")
+        stp.set_duration(2.0)
+
+    M["Step.set_duration"] = set_duration
+    return M
+
+
+BODY_MUT = '''        from stepup.core.file import File
+        from stepup.core.enums import FileState, StepState
+        print("mutation:", mutation, "arguments:", margs)
+        def coherent():
+            bad = []
+            for n, ready, cready in db.execute("SELECT node, _ready, _check_ready FROM step").fetchall():
+                blocked = db.execute("""SELECT count(*) FROM dependency d JOIN file f ON f.node = d.source JOIN node fn ON fn.i = d.source
+                    LEFT JOIN dynamic_dep dd ON dd.i = d.i WHERE d.sink = ? AND (f.state = 18
+                    OR (dd.i IS NOT NULL AND NOT fn.detached AND f.state IN (15, 17))
+                    OR (dd.i IS NULL AND (fn.detached OR f.state NOT IN (16, 14))))""", (n,)).fetchone()[0]
+                if not cready and ready != int(blocked == 0):
+                    bad.append(("ready", n))
+            for n, hh in db.execute("SELECT node, _has_hash FROM step").fetchall():
+                if hh != db.execute("SELECT count(*) FROM step_hash WHERE node = ?", (n,)).fetchone()[0]:
+                    bad.append(("has_hash", n))
+            return bad
+        async with db:
+            before = coherent()
+            run_mutation(wf, db)
+            after = coherent()
+            # let the scheduler recompute and compare with a recomputation from scratch
+            sched._update_meta_safe(); sched._update_meta_after(); sched._update_meta_ready()
+            inc = db.execute("SELECT node, _safe, _safe_ignoring_hold, _implied_need, _ready FROM step JOIN node ON node.i = step.node WHERE NOT node.detached ORDER BY 1").fetchall()
+            db.execute("UPDATE step SET _check_safe = 1, _check_after = 1, _check_ready = 1")
+            sched._update_meta_safe(); sched._update_meta_after(); sched._update_meta_ready()
+            full = db.execute("SELECT node, _safe, _safe_ignoring_hold, _implied_need, _ready FROM step JOIN node ON node.i = step.node WHERE NOT node.detached ORDER BY 1").fetchall()
+        print("incoherent before:", before, "after:", after)
+        print("incremental recomputation:", inc)
+        print("recomputation from scratch:", full)
+        return 1 if (inc != full or (after and not before)) else 0
+'''
+
+
+def o10_3(tier):
+    import stepup.core.step as stp
+
+    res = ObResult()
+    K, D = (4, 3) if tier == "quick" else (5, 4)
+    res.bounds = f"{K} node slots, {D} dependency edges; one mutation through the real method from any state satisfying the schema, I1-I7 and INV_flags; node ids, new states and endpoints symbolic"
+    res.encoded += [enc(stp.STEP_SCHEMA, "step.STEP_SCHEMA (triggers)"), enc(stp.RECURSIVE_CHECK_WITH_PRODUCTS, "step.RECURSIVE_CHECK_WITH_PRODUCTS"), enc(stp.RECURSIVE_CHECK_AFTER_SOURCES, "step.RECURSIVE_CHECK_AFTER_SOURCES")]
+    muts = mutations()
+    only = os.environ.get("VERIF_MUTATIONS")
+    total_paths = 0
+    for name, fn in muts.items():
+        if only and name not in only.split(","):
+            continue
+
+        def pre(wf):
+            rank = [z3.Int(f"crk[{j}]") for j in range(wf.K)]
+            cons = list(flag_invariants(wf))
+            for j in range(wf.K):
+                for c in range(wf.K):
+                    if c != j:
+                        cons.append(z3.Implies(z3.And(bz(wf.nodes[j].present), wf.creator_is(j, c)), rank[c] < rank[j]))
+            return cons
+
+        def action(wf, w, s, aux, fn=fn):
+            fn(wf, w, s, w.db.run, aux)
+
+        def post(wf, aux):
+            return [z3.Not(c) for c in flag_invariants(wf)]
+
+        def viol(res, wf0, m, content, which, aux, name=name):
+            margs = {}
+            for v in ("m.file", "m.step", "m.creator", "m.newstate", "m.dep"):
+                margs[v] = m.eval(z3.Int(v), model_completion=True).as_long()
+            body = f"        mutation = {name!r}\n        margs = {margs!r}\n" + _MUT_RUNNER + BODY_MUT
+            clause = ["ready", "has_hash", "safe", "after"]
+            _replay_generic(res, "O10.3", f"O10.3:{name}", content, body, f"{name} leaves a cached scheduling attribute stale without flagging it", targets=_targets_from_model(wf0, m))
+
+        c = _explore(res, name, K, D, pre, action, post, on_violation=viol, max_paths=200, allow_integrity=True)
+        total_paths += c["paths"]
+    res.twin("mutation paths explored", "sat" if total_paths >= 1 else "unsat", 0.0)
+    res.nontrivial = len(res.queries)
+    return res
+
+
+_MUT_RUNNER = '''        def run_mutation(wf, db):
+            from stepup.core.file import File
+            from stepup.core.step import Step
+            from stepup.core.enums import FileState, StepState
+            from stepup.core.hash import StepHash
+            def lab(i):
+                return db.execute("SELECT label FROM node WHERE i = ?", (i,)).fetchone()[0]
+            f = File(wf, margs["m.file"], lab(margs["m.file"])) if db.execute("SELECT 1 FROM file WHERE node = ?", (margs["m.file"],)).fetchone() else None
+            s = Step(wf, margs["m.step"], lab(margs["m.step"])) if db.execute("SELECT 1 FROM step WHERE node = ?", (margs["m.step"],)).fetchone() else None
+            c = Step(wf, margs["m.creator"], lab(margs["m.creator"])) if db.execute("SELECT 1 FROM step WHERE node = ?", (margs["m.creator"],)).fetchone() else None
+            m = mutation
+            if m == "File.set_state": f.set_state(FileState(margs["m.newstate"]))
+            elif m == "Step.set_state": s.set_state(StepState(margs["m.newstate"]), False)
+            elif m == "Step.add_source(file)": s.add_source(f)
+            elif m == "File.add_source(step)": f.add_source(s)
+            elif m == "Step.del_sources([file])": s.del_sources([f])
+            elif m == "File.del_all_sources": f.del_all_sources()
+            elif m == "INSERT dynamic_dep": db.execute("INSERT INTO dynamic_dep VALUES (?)", (margs["m.dep"],))
+            elif m == "DELETE dynamic_dep": db.execute("DELETE FROM dynamic_dep WHERE i = ?", (margs["m.dep"],))
+            elif m == "Step.set_hash": s.set_hash(StepHash(b"x" * 32, None, b"y" * 32, None))
+            elif m == "Step.delete_hash": s.delete_hash()
+            elif m == "Step.hold": s.hold()
+            elif m == "Step.release": s.release()
+            elif m == "Step.detach": s.detach()
+            elif m == "File.detach (static)": f.detach()
+            elif m == "File.del_sources([step]) + detach": f.del_sources([s]); f.detach()
+            elif m == "Step.reattach(step)": s.reattach(c)
+            elif m == "Step.set_duration": s.set_duration(2.0)
+            else: raise SystemExit(2)
+'''
+
+OBLIGATIONS += [
+    Ob("O10.3", o10_3, "no lost wake-up: each mutation through the real methods keeps 'unflagged => coherent'", weight=8, timeout={"quick": 3000, "thorough": 10800}),
 ]
